@@ -1,5 +1,5 @@
 """Which rules and witnesses decide which property."""
-from . import shared_state, surface, entry, tables, dirflow
+from . import shared_state, surface, entry, tables, dirflow, precision
 
 RULES = {
     "R-NOCELL": shared_state.r_nocell,
@@ -18,6 +18,11 @@ RULES = {
     "R-ZEROGUARD": tables.r_zeroguard,
     "R-DFTBOUND": tables.r_dftbound,
     "R-DIRFLOW": dirflow.r_dirflow,
+    "R-TWF64": precision.r_twf64,
+    "R-BLUEMOD": precision.r_bluemod,
+    "R-NORECUR": precision.r_norecur,
+    "R-FROMF64": precision.r_fromf64,
+    "R-RINGOPS": precision.r_ringops,
 }
 
 PROPS = {
@@ -125,6 +130,22 @@ PROPS = {
                        "state, so equal request sequences build equal plans. Instances own their parts through Arc (W-API ascribes 'static).",
         "decides": "cache entries always satisfy their key; planning is a function of the request sequence and CPU feature bits",
         "does_not_decide": "that each spliced plan computes the DFT (C01); index arithmetic of replan_with_cache",
+        "assumptions": ["x86_64 non-test code"],
+    },
+    "C02": {
+        "level": "other",
+        "rules": ["R-TWF64", "R-BLUEMOD", "R-NORECUR", "R-FROMF64"],
+        "witnesses": [],
+        "explanation": "Decides the three precision MECHANISMS the property is anchored in, each a necessary condition of the bound, NOT the bound "
+                       "16*eps*log2(2n) itself: (R-TWF64) in compute_twiddle the sin/cos arguments are f64 expressions built only from f64 "
+                       "constants, f64 arithmetic and integer->f64 conversions of the index and the length (no f32 local, no float-to-float cast, no "
+                       "call), results go straight to T::from_f64 as (re,im)=(cos,sin), Inverse = conj; (R-BLUEMOD) every chirp index is (i*i) mod f(2n) "
+                       "computed in >=64-bit integer arithmetic, the 64-bit branch dominated by len < 2^32, for the length 2*destination.len(); "
+                       "(R-NORECUR) no function that obtains twiddles from a twiddle source multiplies two twiddle-derived complex values (no table by "
+                       "recurrence); (R-FROMF64) constants enter only via from_f64/from_usize. A tree passing these rules can still violate the "
+                       "numeric bound (e.g. a numerically poor butterfly); that part is value-level and not decided.",
+        "decides": "mechanisms: f64-only twiddle evaluation from an integer index, integer mod 2n before the Bluestein chirp, no twiddle recurrence",
+        "does_not_decide": "the bound 16*eps*log2(2n) itself; pre-scaling by 1/m beyond its appearance as a real-scalar product",
         "assumptions": ["x86_64 non-test code"],
     },
 }
